@@ -103,6 +103,44 @@ fn advance(&mut self, it: u64, params: &RegretParams) -> (r: f64)
     }
 }
 
+// R5: std::sync::Mutex as far as `advance` uses it: get_mut() on an exclusively borrowed mutex
+// returns the protected value (lock poisoning -- the Err case -- is not modelled: assumed Ok)
+#[derive(Debug)]
+pub struct PoisonError { }
+pub struct Mutex<T> { pub inner: T }
+impl<T> Mutex<T> {
+    #[verifier::external_body]
+    pub fn get_mut(&mut self) -> (r: Result<&mut T, PoisonError>)
+        ensures r is Ok, *(r->Ok_0) == old(self).inner, final(self).inner == *final(r->Ok_0),
+    { unimplemented!() }
+}
+pub trait MutexPlayerRecurse {
+    fn advance(&mut self, it: u64, params: &RegretParams) -> f64;
+}
+
+// ---- extracted from src/solve/vanilla.rs: struct MutexRegretInfoset ----
+pub struct MutexRegretInfoset {
+    pub cum_regret: Box<[f64]>,
+    pub cum_strat: Mutex<Box<[f64]>>,
+    pub strat: Box<[f64]>,
+}
+
+// ---- extracted from src/solve/vanilla.rs: impl MutexPlayerRecurse for MutexRegretInfoset ----
+impl MutexPlayerRecurse for MutexRegretInfoset {
+fn advance(&mut self, it: u64, params: &RegretParams) -> (r: f64) 
+    ensures
+        final(self).strat@ == rm_spec(*params, old(self).cum_regret@), // @ob C08.V.advance.match_before_discount
+        final(self).cum_regret@ == dcr_spec(*params, it, old(self).cum_regret@), // @ob C08.V.advance.discount_regrets
+        final(self).cum_strat.inner@ == das_spec(*params, it, old(self).cum_strat.inner@), // @ob C08.V.advance.discount_average
+        r == cr_spec(*params, it, final(self).cum_regret@), // @ob C02.V.advance.reports_bound
+{
+        params.regret_match(&mut *self.cum_regret, &mut self.strat);
+        params.discount_cum_regret(it, &mut *self.cum_regret);
+        params.discount_average_strat(it, self.cum_strat.get_mut().unwrap());
+        params.cum_regret(it, &mut *self.cum_regret)
+    }
+}
+
 // ---- extracted from src/solve/external.rs: struct CachedInfoset ----
 pub struct CachedInfoset {
     pub reg: RegretInfoset,
